@@ -282,3 +282,47 @@ pub fn sweep_maps() -> Vec<RV> {
         RV::map(&[("needle", RV::Int(1)), ("hay", RV::None), ("", RV::Int(0)), ("with space", RV::Int(2))]),
     ]
 }
+
+/// every text within two edits of a canonical timestamp (an edit deletes one character, inserts one
+/// of a few separators / digits, or replaces a character by one of them): the zone designator gone,
+/// a blank or a lower-case letter for `T`, a leading zero missing, a blank moved — the neighbours a
+/// lenient, normalising or memoising cast is most likely to confuse with each other
+pub fn timestamp_neighbourhood(canonical: &str, two: bool) -> Vec<String> {
+    const INS: [char; 8] = [' ', '0', 'T', ':', '-', 'Z', '+', '\t'];
+    const REP: [char; 9] = [' ', 'T', 't', 'z', '_', '0', '9', ':', '/'];
+    fn one(t: &str) -> Vec<String> {
+        let cs: Vec<char> = t.chars().collect();
+        let mut v = Vec::new();
+        for i in 0..cs.len() {
+            let mut d = cs.clone();
+            d.remove(i);
+            v.push(d.iter().collect());
+            for r in REP {
+                if cs[i] != r {
+                    let mut d = cs.clone();
+                    d[i] = r;
+                    v.push(d.iter().collect());
+                }
+            }
+        }
+        for i in 0..=cs.len() {
+            for c in INS {
+                let mut d = cs.clone();
+                d.insert(i, c);
+                v.push(d.iter().collect());
+            }
+        }
+        v
+    }
+    let mut all: Vec<String> = vec![canonical.to_string()];
+    let first = one(canonical);
+    all.extend(first.iter().cloned());
+    if two {
+        for t in &first {
+            all.extend(one(t));
+        }
+    }
+    all.sort();
+    all.dedup();
+    all
+}
